@@ -329,6 +329,20 @@ func applyDocEdit(doc *JV, op Op) bool {
 				return true
 			}
 		}
+	case "valuedate":
+		// the tax applies on another day than the document is issued; sometimes the issue date
+		// is left to the clock
+		if doc.Get("lines") == nil {
+			return false
+		}
+		if doc.Get("value_date").Str() == op.S2 {
+			return false
+		}
+		doc.Set("value_date", JStr(op.S2))
+		if op.I%2 == 0 {
+			doc.Del("issue_date")
+		}
+		return true
 	case "fx":
 		// something in the document is expressed in another currency than the document's:
 		// a payment line, a line's item, an advance, a preceding reference, a due date
@@ -452,7 +466,7 @@ func applyDocEdit(doc *JV, op Op) bool {
 	return false
 }
 
-var editKinds = []string{"qty", "price", "rmline", "dupline", "note", "rounding", "custname", "code", "breakdown", "linedisc", "linecharge", "docdisc", "advances", "codeweird", "addrweird", "taxidweird", "amountprec", "mixrates", "mixrates", "rmdefaulted", "sloppy", "sloppy", "sloppy", "inboxweird", "scenario", "scenario", "fx"}
+var editKinds = []string{"qty", "price", "rmline", "dupline", "note", "rounding", "custname", "code", "breakdown", "linedisc", "linecharge", "docdisc", "advances", "codeweird", "addrweird", "taxidweird", "amountprec", "mixrates", "mixrates", "rmdefaulted", "sloppy", "sloppy", "sloppy", "inboxweird", "scenario", "scenario", "fx", "valuedate"}
 
 func genEdit(r *rand.Rand, id int) Op {
 	k := Pick(r, editKinds)
@@ -484,6 +498,8 @@ func genEdit(r *rand.Rand, id int) Op {
 		op.S2 = Pick(r, []string{"type", "currency", "$regime", "type", "tax"})
 	case "sloppy":
 		op.I, op.J = int64(r.IntN(1<<16)), int64(r.IntN(7))
+	case "valuedate":
+		op.S2 = Pick(r, []string{"2012-08-31", "2020-12-31", "2010-06-30", "2023-12-31", "2031-01-01"})
 	case "fx":
 		op.S2 = Pick(r, []string{"0.96", "0.9137", "1.25", "0.5"})
 	case "scenario":
